@@ -438,17 +438,37 @@ def _roots(e, acc):
 def _writes_through(body, bi, roots):
     """Does block bi contain a store through, or a call that may mutate through, a root local?"""
     blk = body.blocks[bi]
+    aliases = _mut_aliases(body, roots)
     for s in blk["stmts"]:
-        if s["k"] == "assign" and s["p"]["proj"] and s["p"]["l"] in roots:
-            return True
-        if s["k"] == "assign" and s["rv"]["k"] == "ref" and s["rv"].get("mut") and s["rv"]["p"]["l"] in roots:
+        if s["k"] == "assign" and s["p"]["proj"] and (s["p"]["l"] in roots or s["p"]["l"] in aliases):
             return True
     t = blk["term"]
     if t["k"] == "call":
         for a in t.get("args", []):
-            if a["k"] in ("copy", "move") and a["p"]["l"] in roots and body.local_ty(a["p"]["l"]).startswith("&mut"):
+            if a["k"] in ("copy", "move") and (a["p"]["l"] in roots or a["p"]["l"] in aliases) and body.local_ty(a["p"]["l"]).startswith("&mut"):
                 return True
     return False
+
+
+def _mut_aliases(body, roots):
+    """temporaries holding `&mut` reborrows of (parts of) the roots; creating one is not a write,
+    storing through it or passing it to a call is"""
+    out = set()
+    changed = True
+    while changed:
+        changed = False
+        for bi, si, s in body.stmts():
+            if s["k"] == "assign" and not s["p"]["proj"] and s["rv"]["k"] in ("ref", "rawptr") and s["rv"].get("mut"):
+                src = s["rv"]["p"]["l"]
+                if (src in roots or src in out) and s["p"]["l"] not in out:
+                    out.add(s["p"]["l"])
+                    changed = True
+            if s["k"] == "assign" and not s["p"]["proj"] and s["rv"]["k"] == "use" and s["rv"]["op"].get("k") in ("copy", "move"):
+                src = s["rv"]["op"]["p"]["l"]
+                if src in out and not s["rv"]["op"]["p"]["proj"] and s["p"]["l"] not in out:
+                    out.add(s["p"]["l"])
+                    changed = True
+    return out
 
 
 def dominating_conditions(body, site_block):
